@@ -35,12 +35,14 @@ PROPS = {
     "C01": {"cone": G_ALL_CORE + ARITH, "lines": 260000, "hist": 100, "oracle_cases": 40000},
     "C02": {"cone": A_NEW + [r"geonum\.new.*", r"geonum\.create_dimension", r"geonum\.scalar"] + ARITH, "lines": 150000, "oracle_cases": 60000},
     "C03": {"cone": A_ADD + ARITH, "lines": 150000, "oracle_cases": 90000},
-    "C04": {"cone": A_SUB + ARITH, "lines": 150000, "oracle_cases": 90000},
+    "C04": {"cone": A_SUB + ARITH, "lines": 150000, "oracle_cases": 90000,
+            "grid": {"quick": 3, "thorough": 4, "what": "every blade difference in [-2^8,2^8] (quick) / [-2^12,2^12] (thorough) x 13 remainder-gap classes x 2 bases"}},
     "C05": {"cone": [r"geonum\.mul\..*", r"geonum\.div\..*", r"geonum\.(div|inv|normalize|scale|scalar|pow)", r"geonum\.angle_mul\..*", r"geonum\.angle_add\..*"] + A_ADD + ARITH,
             "lines": 150000, "oracle_cases": 60000},
     "C06": {"cone": G_ADD + [r"angle\.new_with_blade", r"angle\.grade_angle"] + A_ADD + ARITH, "lines": 150000, "oracle_cases": 50000},
     "C07": {"cone": G_STEP + A_ADD + A_SUB + [r"geonum\.(mul|div)\.vv", r"geonum\.rotate"] + ARITH, "lines": 150000,
-            "hist": 150, "oracle_cases": 60000},
+            "hist": 150, "oracle_cases": 60000,
+            "grid": {"quick": 3, "thorough": 4, "what": "all operation sequences of that depth over a 14-letter alphabet from 24 start states (remainders k/12 of a quarter turn)"}},
     "C08": {"cone": [r"geonum\.(dot|wedge|meet|project|reject|project_to_dimension|distance_to|is_orthogonal|cos|sin|dual)", r"angle\.project",
                      r"angle\.grade_angle", r"geonum\.add\.vv", r"coll\.select_cone"] + A_SUB + A_ADD + ARITH, "lines": 150000, "oracle_cases": 40000},
     "C09": {"cone": [r"geonum\.(dot|is_orthogonal)", r"angle\.grade_angle"] + A_SUB + ARITH, "lines": 120000, "oracle_cases": 60000},
